@@ -24,6 +24,9 @@ def run(s):
     K.large_cases(s, 24 if s.tier == 'quick' else 600, 'story')
     K.pair_histories(s)
     K.resend_after_reorder(s, 4 if s.tier == 'quick' else 5)
+    # a running-order element that holds nothing but stories (moving every story empties it for a moment)
+    K.story_grid(s, 3, layouts=('bare',), pretties=(False,), kmax=3, full=False)
+    K.story_grid(s, 3, layouts=('before',), pretties=(True,), kmax=2, full=False, names=K.LONG_NAMES)
     if s.tier == 'quick':
         K.story_grid(s, 4, layouts=('none', 'between', 'everywhere'), kmax=3, full=False)
         K.story_grid(s, 4, layouts=('before',), pretties=(False,), kmax=2, full=False, names=K.HOSTILE_NAMES)
